@@ -296,6 +296,32 @@ theorem later_calls_follow_completed_change (orc : Oracle) (ops : List Op) (lv :
   have h := (logDuring_sim orc hs lv M lazy early p st).2
   exact ⟨(log_sim orc h lv' M' lazy').1, h.cache⟩
 
+/-- **Overlapped calls are linearizable.**  After any history, a log call overlapped by a complete
+`enable()/disable()` – at either yield point – is indistinguishable, by its own observable AND by the observables
+of EVERY continuation `rest`, from one of the two sequential orders: change-then-call (early point) or
+call-then-change (rules-read point). -/
+theorem overlapped_call_is_linearizable (orc : Oracle) (ops rest : List Op) (lv : LevelArg) (M : Option Str)
+    (lazy early : Bool) (p : Option Str) (st : Bool) :
+    let c := final orc Core.init ops
+    run orc (final orc Core.init (ops ++ [.logDuring lv M lazy early p st])) rest =
+      run orc (final orc Core.init (ops ++ linearized lv M lazy early p st)) rest ∧
+    (step orc c (.logDuring lv M lazy early p st)).2 =
+      (if early then (log orc (activate c p st) lv M lazy).2 else (log orc c lv M lazy).2) := by
+  intro c
+  have hs : Sim c (finalS orc SState.init ops) := final_sim orc ops sim_init idInv_init
+  have hi : IdInv (finalS orc SState.init ops) := idInv_final orc ops idInv_init
+  constructor
+  · have h1 := final_sim orc (ops ++ [.logDuring lv M lazy early p st]) sim_init idInv_init
+    have h2 := final_sim orc (ops ++ linearized lv M lazy early p st) sim_init idInv_init
+    rw [run_sim orc rest h1 (idInv_final orc _ idInv_init), run_sim orc rest h2 (idInv_final orc _ idInv_init),
+      finalS_append, finalS_append, finalS_linearized]
+  · cases early with
+    | true => rfl
+    | false =>
+      show (logDuringG Gen.cacheFillIntoFetchedDict orc c lv M lazy p st).2 = _
+      rw [fill_goes_into_fetched_dict, logDuringG_fetched]
+      rfl
+
 /-- **Refuting witness for the shape "re-read `core.enabled` after the rules were read"** (`core.enabled[name] =
 status` instead of filling the dict fetched before): one handler, a first log from `a.b` overlapped by a
 complete `disable("a")` right after the reader fetched the (empty) rule list.  With the refuted shape the
